@@ -225,3 +225,8 @@ def run(ctx):
         'GNU extension "sign after operator" (a*-b) is read with gfortran\'s meaning and never the reason for a violation',
         'C backend: operator subset without %, casts; integer-typed powers (pow() is double in C) are compared under the real typing only',
     ]
+
+
+def selftest(ctx):
+    from .. import selftests
+    return selftests.c06(ctx)
